@@ -70,6 +70,19 @@ func c03Ops(maxL int) []listOp {
 			return ""
 		}})
 	}
+	// a copy of the handle is released by whoever held it, and somebody else makes a stack of their own: the
+	// instance has as many owners as there are handles, and goes on as before
+	ops = append(ops, listOp{"copy.Free(); Basic(7).Push(x,y)", 0, always, func(in *listInst) string {
+		h := in.s
+		if err := h.Free(); err != nil {
+			return fmt.Sprintf("Free on a copy of the handle failed: %v", err)
+		}
+		other := stackage.Basic(7).Push(in.fresh(), in.fresh())
+		if other.Len() != 2 || other.Cap() != 7 {
+			return fmt.Sprintf("the stack made afterwards has Len %d Cap %d, want 2 / 7", other.Len(), other.Cap())
+		}
+		return ""
+	}})
 	for _, lab := range []string{"AND", "condition"} {
 		lab := lab
 		ops = append(ops, listOp{"this.Marshal(" + lab + " envelope)", 1, always, func(in *listInst) string {
